@@ -4,6 +4,8 @@ import (
 	"bytes"
 	"fmt"
 	"math"
+	"os"
+	"path/filepath"
 	"strings"
 	"time"
 
@@ -229,6 +231,52 @@ func c15Genome(g *GenomeSpec, modular bool) (fails []c15Fail, trips int64) {
 			}
 		}()
 		check("YAML WriteGenome -> GenomeReader.Read", got, err, g.ID)
+	}
+	return
+}
+
+// c15Files: the genome written to a file and read back with NewGenomeReaderFromFile, which chooses the
+// encoding from the file name (.yml / .yaml: YAML, anything else: plain).
+func c15Files(g *GenomeSpec, dir string, idx int) (fails []c15Fail) {
+	gen := g.Build()
+	want := normKey(g)
+	for _, f := range []struct {
+		name string
+		enc  genetics.GenomeEncoding
+	}{{"genome.yml", genetics.YAMLGenomeEncoding}, {"genome.yaml", genetics.YAMLGenomeEncoding}, {"genome.txt", genetics.PlainGenomeEncoding}, {"startgenes", genetics.PlainGenomeEncoding}, {"yml.genome", genetics.PlainGenomeEncoding}} {
+		path := filepath.Join(dir, fmt.Sprintf("%d-%s", idx, f.name))
+		var buf bytes.Buffer
+		w, err := genetics.NewGenomeWriter(&buf, f.enc)
+		if err == nil {
+			err = w.WriteGenome(gen)
+		}
+		if err != nil {
+			fails = append(fails, c15Fail{"file/write-error", err.Error()})
+			continue
+		}
+		if err := os.WriteFile(path, buf.Bytes(), 0o644); err != nil {
+			panic(err)
+		}
+		r, err := genetics.NewGenomeReaderFromFile(path)
+		var got *genetics.Genome
+		if err == nil {
+			func() {
+				defer func() {
+					if p := recover(); p != nil {
+						err = fmt.Errorf("panic: %v", p)
+					}
+				}()
+				got, err = r.Read()
+			}()
+		}
+		_ = os.Remove(path)
+		if err != nil {
+			fails = append(fails, c15Fail{"file/read-error", fmt.Sprintf("NewGenomeReaderFromFile(%s).Read failed: %v", f.name, err)})
+			continue
+		}
+		if k := normKey(SpecOf(got)); k != want {
+			fails = append(fails, c15Fail{"file/differs", fmt.Sprintf("genome written to %s and read with NewGenomeReaderFromFile differs: %s", f.name, diffKeys(want, k))})
+		}
 	}
 	return
 }
@@ -525,6 +573,22 @@ func runC15(c *Ctx) {
 	})
 	c.AddEval(trips)
 	c.Count("genome_round_trips", trips)
+	// through files
+	fdir := filepath.Join(outRoot, "build", "tmp", fmt.Sprintf("c15-%d", os.Getpid()))
+	_ = os.MkdirAll(fdir, 0o755)
+	var files int64
+	for i, g := range c15BaseGenomes() {
+		if len(g.Modules) > 0 {
+			continue
+		}
+		files += 5
+		for _, fl := range c15Files(g, fdir, i) {
+			report(fl, g.Short(), int64(i), map[string]interface{}{"kind": "file", "genome": g})
+		}
+	}
+	_ = os.RemoveAll(fdir)
+	c.AddEval(files)
+	c.Count("file_round_trips", files)
 	// organisms: fitness x generation
 	base := c15BaseGenomes()
 	var orgs int64
@@ -646,7 +710,7 @@ func runC15(c *Ctx) {
 	c.Count("experiment_round_trips", exps)
 	c.Sample(map[string]interface{}{"genome": fam[len(fam)/3].Short(), "encodings": []string{"plain Write -> GenomeReader.Read", "plain Write -> ReadGenome", "YAML"}})
 	c.Sample(map[string]interface{}{"floats": c15Floats})
-	c.Rule = "genomes: start genomes, corner genomes, two unusual node layouts, each gene weight/mutation number and each trait parameter of four base genomes replaced in turn by every value of a 21-value hard-float alphabet (incl. 1e21/1e-5 where %g changes notation, MaxFloat64, 5e-324), every registered scalar activation type, three trait-reference patterns, all GenomeSpace states to depth 2 (3 thorough) of three families; each through plain Write->Read, plain Write->ReadGenome and YAML (modular genomes: YAML only) and compared bit for bit (sign of zero excepted) incl. id and pointer wiring. organisms: MarshalBinary->UnmarshalBinary over fitness alphabet x generation {0,1,7}. populations: every multiset of <= 3 genomes from a family of 6 (1-3 traits) through Population.Write->ReadPopulation. fast-solver models: all 2^9 feed-forward edge sets over {bias,input,2 hidden,output} with hard-float weights + modular, WriteModel->ReadFMNSModel, outputs of 3 solver modes on 4 inputs bit-equal. experiments: every single-trial shape of <= 2 (3) generations over a 6-record menu plus two- and three-trial combinations, Write->Read, records, champions and 8 derived statistics equal. non-trivial = distinct genomes written"
+	c.Rule = "genomes: start genomes, corner genomes, two unusual node layouts, each gene weight/mutation number and each trait parameter of four base genomes replaced in turn by every value of a 21-value hard-float alphabet (incl. 1e21/1e-5 where %g changes notation, MaxFloat64, 5e-324), every registered scalar activation type, three trait-reference patterns, all GenomeSpace states to depth 2 (3 thorough) of three families; each through plain Write->Read, plain Write->ReadGenome and YAML (the base genomes also through files read with NewGenomeReaderFromFile under five file names) (modular genomes: YAML only) and compared bit for bit (sign of zero excepted) incl. id and pointer wiring. organisms: MarshalBinary->UnmarshalBinary over fitness alphabet x generation {0,1,7}. populations: every multiset of <= 3 genomes from a family of 6 (1-3 traits) through Population.Write->ReadPopulation. fast-solver models: all 2^9 feed-forward edge sets over {bias,input,2 hidden,output} with hard-float weights + modular, WriteModel->ReadFMNSModel, outputs of 3 solver modes on 4 inputs bit-equal. experiments: every single-trial shape of <= 2 (3) generations over a 6-record menu plus two- and three-trial combinations, Write->Read, records, champions and 8 derived statistics equal. non-trivial = distinct genomes written"
 	c.Assume("a zero weight's sign is not compared; generation records always carry a champion (as FillPopulationStatistics produces); RandSeed, MaxFitnessScore and species back-pointers are not part of the statement")
 }
 
